@@ -54,6 +54,27 @@ Definition is_cen (x : fr) : bool := match x with Cen _ => true | _ => false end
 
 Definition dfr : fr := Raw 0 0 0.
 
+(* "the same coordinates" as join(discard_overlapping_frames=True) decides it (all |x1 - x0| < 2e-3): equality of
+   the terms after removing atom subsets that select every atom in order (numerically the identity) *)
+Fixpoint width (x : fr) : nat :=
+  match x with
+  | Raw _ _ w => w
+  | Sub idx _ => length idx
+  | Cen y | CenM _ y => width y
+  | Sup y _ => width y
+  | Stk y z => width y + width z
+  end.
+Fixpoint norm (x : fr) : fr :=
+  match x with
+  | Raw _ _ _ => x
+  | Sub idx y => let y' := norm y in if list_eqb Nat.eqb idx (seq 0 (width y')) then y' else Sub idx y'
+  | Cen y => cen (norm y)
+  | CenM ks y => CenM ks (norm y)
+  | Sup y r => Sup (norm y) (norm r)
+  | Stk y z => Stk (norm y) (norm z)
+  end.
+Definition fr_same (a b : fr) : bool := fr_eqb (norm a) (norm b).
+
 (* ------------------------------------------------------------------ arrays *)
 (* a_f: the array is a transposed (Fortran-ordered) 2-d array with more than one row, as the unitcell_vectors setter
    makes them (np.vstack((a, b, c)).T): never C-contiguous, so ensure_type (np.ascontiguousarray) copies it and
@@ -95,9 +116,13 @@ Inductive res := ROk | RErr (e : err).
 (* the two defects found in the pinned tree, each with its repair *)
 Record variant := mkVar {
   slice_indexes_traces : bool;      (* false = as found: slice() hands _rmsd_traces over unindexed *)
-  aslice_inplace_resets : bool }.   (* false = as found: atom_slice(inplace=True) keeps _rmsd_traces *)
-Definition v_cur := mkVar false false.
-Definition v_fix := mkVar true true.
+  aslice_inplace_resets : bool;     (* false = as found: atom_slice(inplace=True) keeps _rmsd_traces *)
+  join_keeps_traces : bool }.       (* false = the code: a joined trajectory starts without a cache.  true = a legitimate
+                                       alternative (not a defect): when every operand is cached, the result carries the
+                                       concatenation of the operands' caches AFTER the overlap trimming; accepted by the
+                                       correspondence because the property is consistency of the cache, not its absence *)
+Definition v_cur := mkVar false false false.
+Definition v_fix := mkVar true true false.
 
 (* ------------------------------------------------------------------ numpy indexing along axis 0 *)
 Inductive key :=
@@ -306,29 +331,80 @@ Fixpoint get_all (w : world) (rs : list nat) : option (list traj) :=
                  end
   end.
 
-Definition ocat {A} (os : list (option (arr A))) : list A :=
-  flat_map (fun o => match o with Some a => a_val a | None => [] end) os.
+Definition oval {A} (o : option (arr A)) : list A := match o with Some a => a_val a | None => [] end.
 
-Definition join_trajs (w : world) (t : traj) (others : list traj) (check_top : bool) : world * res :=
+(* join(..., discard_overlapping_frames=True): operand i loses its last frame (trajectories[i] = trajectories[i][:-1])
+   when that frame has the coordinates of the first frame of operand i+1.  None: an operand that is compared has no
+   frames (xyz[-1] / xyz[0] raise IndexError) *)
+Fixpoint discard_plan (fss : list (list fr)) : option (list bool) :=
+  match fss with
+  | [] => Some []
+  | a :: rest =>
+    match rest with
+    | [] => Some [false]
+    | b :: _ =>
+      match rev a, b with
+      | x :: _, y :: _ => option_map (cons (fr_same x y)) (discard_plan rest)
+      | _, _ => None
+      end
+    end
+  end.
+Definition join_plan (dis : bool) (fss : list (list fr)) : option (list bool) :=
+  if dis then discard_plan fss else Some (map (fun _ => false) fss).
+
+Definition trim_if {A} (d : bool) (l : list A) : list A := if d then removelast l else l.
+(* concatenation of the (possibly trimmed) operand fields *)
+Definition jparts {A} (plan : list bool) (ls : list (list A)) : list A :=
+  concat (map (fun dl => trim_if (fst dl) (snd dl)) (combine plan ls)).
+
+Definition join_trajs (w : world) (t : traj) (others : list traj) (check_top dis : bool) : world * res :=
   if negb (forallb (fun o => Nat.eqb (na t) (na o)) others) then (w, RErr EValue)
   else if check_top && negb (forallb (fun o => list_eqb (list_eqb Nat.eqb) (chains t) (chains o)) others) then (w, RErr EValue)
   else if negb (forallb (fun o => Bool.eqb (have_cell t) (have_cell o)) others) then (w, RErr EValue)
   else
     let all := t :: others in
-    let fs := flat_map (frames w) all in
-    let '(w1, b) := alloc_x w fs in
-    let '(w2, tm') := new_arr w1 (flat_map (fun o => a_val (tm o)) all) in
-    let '(w3, ua') := if have_cell t then let '(wa, a) := new_arr w2 (ocat (map ua all)) in (wa, Some a) else (w2, None) in
-    let '(w4, ul') := if have_cell t then let '(wa, a) := new_arr w3 (ocat (map ul all)) in (wa, Some a) else (w3, None) in
-    let '(w5, tl) := fresh_top w4 in
-    match construct w5 b (seq 0 (length fs)) (na t) tl (chains t) tm' ul' ua' with
-    | (_, RErr e) => (w, RErr e)
-    | ok => ok
+    match join_plan dis (map (frames w) all) with
+    | None => (w, RErr EIndex)
+    | Some plan =>
+      let fs := jparts plan (map (frames w) all) in
+      let '(w1, b) := alloc_x w fs in
+      let '(w2, tm') := new_arr w1 (jparts plan (map (fun o => a_val (tm o)) all)) in
+      let '(w3, ua') := if have_cell t then let '(wa, a) := new_arr w2 (jparts plan (map (fun o => oval (ua o)) all)) in (wa, Some a) else (w2, None) in
+      let '(w4, ul') := if have_cell t then let '(wa, a) := new_arr w3 (jparts plan (map (fun o => oval (ul o)) all)) in (wa, Some a) else (w3, None) in
+      let '(w5, tl) := fresh_top w4 in
+      match construct w5 b (seq 0 (length fs)) (na t) tl (chains t) tm' ul' ua' with
+      | (_, RErr e) => (w, RErr e)
+      | ok => ok
+      end
     end.
 
-Definition do_join (w : world) (r : nat) (others : list nat) (check_top : bool) : world * res :=
+(* the alternative [join_keeps_traces]: the cache of the result, when every operand has one *)
+Definition join_traces (v : variant) (w : world) (t : traj) (others : list traj) (dis : bool) : option (list fr) :=
+  let all := t :: others in
+  if join_keeps_traces v && forallb (fun o => match tr o with Some _ => true | None => false end) all then
+    match join_plan dis (map (frames w) all) with
+    | Some plan =>
+      Some (jparts (map (fun d => d && slice_indexes_traces v) plan) (map (fun o => oval (tr o)) all))
+    | None => None
+    end
+  else None.
+
+(* joined._rmsd_traces = <fresh array> on the register just created *)
+Definition attach_traces (w0 : world) (wr : world * res) (tv : option (list fr)) : world * res :=
+  match wr, tv with
+  | (w1, ROk), Some vals =>
+    let i := length (trajs w0) in
+    match nth_error (trajs w1) i with
+    | Some nt => let '(w2, c) := new_arr w1 vals in
+                 (put w2 i (mkTraj (xb nt) (xp nt) (na nt) (tm nt) (ul nt) (ua nt) (tloc nt) (chains nt) (Some c) (tdef nt)), ROk)
+    | None => wr
+    end
+  | _, _ => wr
+  end.
+
+Definition do_join (v : variant) (w : world) (r : nat) (others : list nat) (check_top dis : bool) : world * res :=
   match nth_error (trajs w) r, get_all w others with
-  | Some t, Some os => join_trajs w t os check_top
+  | Some t, Some os => attach_traces w (join_trajs w t os check_top dis) (join_traces v w t os dis)
   | _, _ => (w, RErr EOther)
   end.
 
@@ -337,9 +413,9 @@ Definition do_join (w : world) (r : nat) (others : list nat) (check_top : bool) 
    exactly the checks of first.join(rest), and the final arrays are the same concatenations; the intermediate
    objects are unreachable afterwards.  The model therefore takes md.join(ts) = ts[0].join(ts[1:]) (the
    correspondence run compares both spellings with the implementation). *)
-Definition do_mdjoin (w : world) (rs : list nat) : world * res :=
+Definition do_mdjoin (v : variant) (w : world) (rs : list nat) (dis : bool) : world * res :=
   match get_all w rs with
-  | Some (t :: o :: rest) => join_trajs w t (o :: rest) true
+  | Some (t :: o :: rest) => attach_traces w (join_trajs w t (o :: rest) true dis) (join_traces v w t (o :: rest) dis)
   | _ => (w, RErr EOther)     (* fewer than two operands: outside the modelled alphabet *)
   end.
 
@@ -552,8 +628,8 @@ Definition do_set_vectors (w : world) (r : nat) (m : option nat) (allzero : bool
 (* ------------------------------------------------------------------ histories *)
 Inductive op :=
 | OSlice (r : nat) (k : key) (copy : bool)        (* t[key] is OSlice r key true *)
-| OJoin (r : nat) (others : list nat) (check_top : bool)   (* t.join(o) / t + o / t.join([..]) *)
-| OMdJoin (rs : list nat)
+| OJoin (r : nat) (others : list nat) (check_top dis : bool)   (* t.join(o, discard_overlapping_frames=dis) / t + o / t.join([..]) *)
+| OMdJoin (rs : list nat) (dis : bool)
 | OStack (r r' : nat)
 | OAtomSlice (r : nat) (idx : list Z) (inplace : bool)
 | ORemoveSolvent (r : nat) (inplace : bool)
@@ -570,8 +646,8 @@ Inductive op :=
 Definition step (v : variant) (w : world) (o : op) : world * res :=
   match o with
   | OSlice r k c => do_slice v w r k c
-  | OJoin r os ct => do_join w r os ct
-  | OMdJoin rs => do_mdjoin w rs
+  | OJoin r os ct dis => do_join v w r os ct dis
+  | OMdJoin rs dis => do_mdjoin v w rs dis
   | OStack r r' => do_stack w r r'
   | OAtomSlice r idx ip => do_atom_slice v w r idx ip
   | ORemoveSolvent r ip => do_remove_solvent v w r ip
